@@ -244,7 +244,7 @@ class Dilute(Sub):
         for dr in (spec['dr'], spec['dr'] / 2):
             L = int(round(rmax / dr))
             for m, rho in enumerate((spec['rho0'], spec['rho0'] / 10, spec['rho0'] / 100, spec.get('rho_tiny', 1e-9))):
-                if dr != spec['dr'] and m != 2:
+                if dr != spec['dr'] and m != 3:
                     continue
                 sysspec = {'types': ['A'], 'kT': spec['kT'], 'domain': {'length': L, 'dr': rmax / L}, 'dia': [1.0], 'rho': [rho], 'method': 'krylov',
                            'omega': {'0,0': ['SingleSite', {}]}, 'potential': {'0,0': spec['potential']}, 'closure': {'0,0': [spec['closure'], spec['flag']]}}
@@ -265,7 +265,8 @@ class Dilute(Sub):
                 gref, judged = g_reference(spec, r)
                 if dr == spec['dr']:
                     devs[m] = (float(np.max(np.abs(g - gref)[judged])), rho, r, g, gref, judged)
-                if m == 2:
+                if m == 3:
+                    # the really vanishing density: the O(rho) part of the error is negligible, what remains is discretisation
                     b2[dr] = float(S.quiet(P.calculate.second_virial, pr, extrapolate=True)['A', 'A'])
         # pointwise O(rho) with K from the Mayer function of the reference
         r = devs[0][2]
@@ -296,7 +297,7 @@ class Dilute(Sub):
         k3 = np.array(pr.sys.domain.k[:3])
         hk, b2_r_space = b2_reference(spec, rmax, k3)
         want = {True: float(O.lagrange0(k3, hk)), False: float(hk[0])}
-        rho = devs[2][1]
+        rho = devs[3][1]
         scale = abs(want[True]) + 2 * math.pi / 3
         e1 = abs(b2[spec['dr']] - want[True]) / scale
         e2 = abs(b2[spec['dr'] / 2] - want[True]) / scale
